@@ -10,6 +10,7 @@ import (
 	"google.golang.org/protobuf/proto"
 	"pgregory.net/rapid"
 
+	"verif/drive"
 	"verif/evid"
 	"verif/ref"
 	"verif/route"
@@ -26,6 +27,9 @@ func TestMain(m *testing.M) {
 type Req struct {
 	Verb string `json:"verb"`
 	Path string `json:"path"`
+	// Raw: how the client spelled the path on the request line when that is not the canonical
+	// escaping (percent-encoded unreserved characters, lower-case hex, ...); it decodes to Path.
+	Raw string `json:"raw,omitempty"`
 }
 
 // Case: a conflict-free rule set, a registration permutation and requests
@@ -154,8 +158,8 @@ func Check(c Case) ([]evid.Violation, []reqInfo) {
 			}
 		}
 		infos[i].w = len(W)
-		oa := a.Do(r.Verb, r.Path, "")
-		ob := b.Do(r.Verb, r.Path, "")
+		oa := a.DoTarget(r.Verb, r.Path, r.Raw, "")
+		ob := b.DoTarget(r.Verb, r.Path, r.Raw, "")
 		infos[i].dispatched = oa.Method != ""
 		// (3) order independence
 		if !oa.Equal(ob) {
@@ -290,7 +294,22 @@ func genCase(t *rapid.T) Case {
 		if verb == "*" {
 			verb = rapid.SampledFrom([]string{"GET", "POST", "PUT", "DELETE", "PATCH", "SEARCH", "HEAD"}).Draw(t, "rv")
 		}
-		c.Reqs = append(c.Reqs, Req{Verb: verb, Path: path})
+		rq := Req{Verb: verb, Path: path}
+		if rapid.IntRange(0, 3).Draw(t, "spelled") == 0 {
+			at := rapid.IntRange(0, len(path)-1).Draw(t, "spellAt")
+			how := rapid.IntRange(1, 2).Draw(t, "spellHow")
+			all := rapid.IntRange(0, 3).Draw(t, "spellAll") == 0
+			rq.Raw = drive.Spell(path, func(i int) int {
+				if all || i == at {
+					return how
+				}
+				return 0
+			})
+			if rapid.Bool().Draw(t, "spellSlash") {
+				rq.Raw += "/" // one trailing slash, which the mux trims before routing
+			}
+		}
+		c.Reqs = append(c.Reqs, rq)
 	}
 	return c
 }
